@@ -363,7 +363,7 @@ func (s *ProofStructure) CommitmentsFromSecrets(g *gabikeys.PublicKey, m, mRando
 
 	bases := zkproof.NewBaseMerge(g, commit)
 
-	var contributions []*big.Int
+	contributions := s.statement(commit.c)
 	contributions = s.mCorrect.CommitmentsFromSecrets(g, contributions, &bases, commit)
 	for i := range commit.d {
 		contributions = s.cRep[i].CommitmentsFromSecrets(g, contributions, &bases, commit)
@@ -444,10 +444,19 @@ func (s *ProofStructure) VerifyProofStructure(g *gabikeys.PublicKey, p *Proof) b
 	return true
 }
 
+// statement returns what the proof is about: the commitments to the squares and the descriptor
+// (bound, factor, sign, l_d). It is hashed into the challenge along with the commitments of the
+// proof: a statement that is not could be chosen after the challenge is known.
+func (s *ProofStructure) statement(cs []*big.Int) []*big.Int {
+	l := make([]*big.Int, 0, len(cs)+4)
+	l = append(l, cs...)
+	return append(l, s.k, new(big.Int).SetUint64(uint64(s.a)), big.NewInt(int64(s.sign)), new(big.Int).SetUint64(uint64(s.ld)))
+}
+
 func (s *ProofStructure) CommitmentsFromProof(g *gabikeys.PublicKey, p *Proof, challenge *big.Int) []*big.Int {
 	bases := zkproof.NewBaseMerge(g, (*proof)(p))
 
-	var contributions []*big.Int
+	contributions := s.statement(p.Cs)
 	contributions = s.mCorrect.CommitmentsFromProof(g, contributions, challenge, &bases, (*proof)(p))
 	for i := range s.cRep {
 		contributions = s.cRep[i].CommitmentsFromProof(g, contributions, challenge, &bases, (*proof)(p))
